@@ -263,20 +263,29 @@ class Contract:
             return re.sub(r'\bself\b', to, e)
         self.init_own = '(%s { %s })' % (O0 + ('::<%s>' % xg if xg else ''), ', '.join('%s: %s' % (f, init[f].strip()) for f, _, _ in own))
         newc = ['requires view.inv()']
-        newc += ['ensures[init|C08,C17] r.view.abs() == view.abs() && r.abs().1 == (%s { %s })' % (O0 + ('::<%s>' % xg if xg else ''), ', '.join('%s: %s' % (f, init[f].strip()) for f, _, _ in own))]
+        newc += ['ensures[init|C08] r.view.abs() == view.abs() && r.abs().1 == (%s { %s })' % (O0 + ('::<%s>' % xg if xg else ''), ', '.join('%s: %s' % (f, init[f].strip()) for f, _, _ in own))]
         newc += ['ensures[inv:%s|%s] %s' % (l, t, sub_self(e, 'r')) for l, t, e in conj]
         newc += ['ensures[inv:view|C15] r.view.inv()']
         self.sec['fn ' + initf] = newc + self.sec.get('fn ' + initf, [])
         e3 = opts.get('E3', '')
-        upd = ['ensures[E1|C01,C17] final(self).abs().0 == V::step(old(self).abs().0, @RAW@)',
-               'ensures[E2|C01,C08,C17%s] V::out(final(self).abs().0).is_none() ==> final(self).abs().1 == old(self).abs().1' % ((',' + e3) if e3 else ''),
+        # E2 (own state unchanged while the inner view is silent) decides C01 and the functional properties; C08 only needs the weaker
+        # E2o (the ANSWER is unchanged), so that a bookkeeping change without effect on the answer is not reported against C08
+        upd = ['ensures[E1|C01] final(self).abs().0 == V::step(old(self).abs().0, @RAW@)',
+               'ensures[E2|C01%s] V::out(final(self).abs().0).is_none() ==> final(self).abs().1 == old(self).abs().1' % ((',' + e3) if e3 else ''),
+               'ensures[E2o|C08] V::out(final(self).abs().0).is_none() ==> %s_own_out%s(final(self).abs().1) == %s_own_out%s(old(self).abs().1)' % (snake, tf, snake, tf),
                'ensures[E3|%s] V::out(final(self).abs().0).is_some() ==> final(self).abs().1 =~~= %s_own_step%s(old(self).abs().1, V::out(final(self).abs().0).unwrap())' % (e3, snake, tf)]
         upd += ['ensures[inv:%s|%s] %s' % (l, t, sub_self(e, 'final(self)')) for l, t, e in conj]
         self.sec['fn update'] = upd + self.sec.get('fn update', [])
         # asserted before every non-silent exit of `update`, so that the trait-level contract follows from the labelled clauses
         self.tail = [('proof { assert(%s); }' % sub_self(e, 'self'), 'inv:' + l, t) for l, t, e in conj]
         self.tail.insert(0, ('proof { assert(V::out(self.abs().0).is_some() ==> self.abs().1 =~~= %s_own_step%s(old(self).abs().1, V::out(self.abs().0).unwrap())); }' % (snake, tf), 'E3', e3))
-        self.sec['fn last'] = ['ensures[out|%s] r == %s_own_out%s(self.abs().1)' % (opts.get('out', ''), snake, tf)] + self.sec.get('fn last', [])
+        # `out` (the value) decides the functional properties; readiness (C08) and ranges (C07) have clauses of their own, so that a
+        # change of the value alone is not reported against them
+        otags = [t.strip() for t in opts.get('out', '').split(',') if t.strip()]
+        lastc = ['ensures[out|%s] r == %s_own_out%s(self.abs().1)' % (','.join(t for t in otags if t not in ('C08', 'C07')), snake, tf)]
+        if 'C08' in otags:
+            lastc += ['ensures[ready|C08] r.is_some() == %s_own_out%s(self.abs().1).is_some()' % (snake, tf)]
+        self.sec['fn last'] = lastc + self.sec.get('fn last', [])
     def _field(self, ln):
         m = re.match(r'\s*(\w+)\s*:\s*([^=]+?)\s*=\s*(.*)$', ln)
         if not m: raise ExtractError('bad own field in %s: %s' % (self.path, ln))
